@@ -65,12 +65,18 @@ def near_keys(c, runner):
     os.makedirs(base, exist_ok=True)
     try:
         lines, meta = [], []
-        victims = [bytes([0x41]) * 32, bytes([0x61]) * 32, bytes(range(0x41, 0x61)), bytes([0x5a, 0x7a] * 16), AUTHORS[0]]
+        victims = [bytes([0x41]) * 32, bytes([0x61]) * 32, bytes(range(0x41, 0x61)), bytes([0x5a, 0x7a] * 16), AUTHORS[0], bytes((7 * i + 3) % 251 for i in range(32))]
         for rep in range(2 if Q else 20):
             for va in victims:
                 near = [bytes([va[0] ^ 0x20]) + va[1:], va[:31] + bytes([va[31] ^ 0x20]), va[:31] + bytes([va[31] ^ 1]),
                         bytes(x ^ 0x20 if (0x41 <= x <= 0x5a or 0x61 <= x <= 0x7a) else x for x in va), va[::-1],
-                        bytes([va[0] ^ 0x80]) + va[1:]]
+                        bytes([va[0] ^ 0x80]) + va[1:],
+                        # differences that cancel when the key is compared word by word and the differences are folded together:
+                        # the same bit flipped in byte k and byte k+8 / k+16 / in all four words; two words swapped; equal halves
+                        bytes(x ^ (0x01 if i in (3, 11) else 0) for i, x in enumerate(va)),
+                        bytes(x ^ (0x40 if i in (0, 16) else 0) for i, x in enumerate(va)),
+                        bytes(x ^ (0x02 if i % 8 == 5 else 0) for i, x in enumerate(va)),
+                        va[8:16] + va[0:8] + va[16:], va[:16] + bytes(x ^ 0xff for x in va[16:]), bytes(x ^ 0xff for x in va[:16]) + va[16:]]
                 for fa in near:
                     if fa == va:
                         continue
